@@ -19,8 +19,9 @@ import common as C
 MODE_NO = 48            # modes of the randomization method in histories (cost only; any value works)
 NC, NK, NP = 19, 3, 8   # trace row layout: result block, (cnames, knames, haspos), cur_desc + seed
 OPN = ["Call", "SetPos", "SetCond:NewVals", "SetCond:NewPos", "SetCond:Refresh", "ModelInplace", "SetModel",
-       "SetMean", "SetTrend", "SetNorm", "SetGen", "MutatePosInPlace", "DirectKrigeCall", "AssignPos"]
-NCOL = 8                # row = [code, haspos, base, jit, mesh, seed+1, nosave, chunk option]
+       "SetMean", "SetTrend", "SetNorm", "SetGen", "MutatePosInPlace", "DirectKrigeCall", "AssignPos", "ReassignSameModel",
+       "MutateCondArrayInPlace"]
+NCOL = 9                # row = [code, haspos, base, jit, mesh, seed+1, nosave, chunk option, store-name set]
 
 
 def chunk_size_for(code, npts):
@@ -35,7 +36,8 @@ def chunk_size_for(code, npts):
     if code == 3:
         return npts + 3
     return None
-FIELD_CODES_C = {0: "field", 1: "raw_field", 2: "raw_krige"}
+NAMESETS = [["field", "raw_field", "raw_krige"], ["upd", "upd_raw", "upd_krige"], ["alt", "alt_raw", "alt_krige"]]
+FIELD_CODES_C = {3 * a + i: NAMESETS[a][i] for a in range(3) for i in range(3)}
 FIELD_CODES_K = {0: "field", 1: "krige_var"}
 
 
@@ -43,9 +45,14 @@ def dec_names(z, table):
     out = []
     z = int(z)
     while z > 0:
-        out.append(table[(z % 4) - 1])
-        z //= 4
+        out.append(table[(z % 16) - 1])
+        z //= 16
     return out[::-1]
+
+
+def ext_fun(*x):
+    """external drift as a function of the position"""
+    return 0.3 * np.asarray(x[0], dtype=float) + 0.1
 
 
 def trend_fn(a):
@@ -70,6 +77,7 @@ class World:
         self.nc = int(r.integers(3, 6))
         self.nc = max(self.nc, self.dim + 3) if r.random() < 0.4 else self.nc
         self.drift = "linear" if self.nc >= self.dim + 3 and r.random() < 0.8 else None   # functional drift (universal kriging)
+        self.ext = bool(self.drift is None and r.random() < 0.25)      # external drift (conditioning arrays: cond_pos, cond_val, ext_drift)
         self.seed0 = int(r.integers(1, 1000))      # small: seeds are unary naturals in the extracted model
         # position pool: base -> per-axis coordinates in [1, 6] (so that the np.allclose window is >= 1e-5)
         self.bases = []
@@ -88,6 +96,8 @@ class World:
         self.model = {}
         self.mtn = {}
         self.cur_cond = self.new_cond(True)
+        if self.ext:
+            self.drift = None
         self.cur_model = self.new_model()
         self.cur_mtn = dict(mean=None if self.unbiased and r.random() < 0.5 else float(r.normal()), trend=None, normalizer=None)
 
@@ -159,21 +169,39 @@ class World:
             return float(r.normal())
         return trend_fn(float(r.uniform(-0.5, 0.5)))
 
+    def target_ext(self, base, jit, mesh):
+        """external drift at the target points (flattened in C order for structured meshes)"""
+        if not self.ext:
+            return {}
+        ax = self.pos(base, jit, mesh)
+        if mesh:
+            g = np.array(np.meshgrid(*ax, indexing="ij")).reshape(self.dim, -1)
+            return dict(ext_drift=ext_fun(*g))
+        return dict(ext_drift=ext_fun(*ax))
+
+    def user_cond(self, cond):
+        """the float64 arrays the CALLER passes as conditions (kept, so that they can be edited in place later)"""
+        self.ucond = dict(pos=np.array(cond[0], dtype=np.double), val=np.array(cond[1], dtype=np.double))
+        if self.ext:
+            self.ucond["ext"] = np.array(ext_fun(*cond[0]), dtype=np.double)
+        return self.ucond
+
     # ---- builders
     def krige(self, cond, model_mat, mtn, model_rhs=None):
         gs = self.gs
         kr = gs.krige.Krige(copy.deepcopy(model_mat), [a.copy() for a in cond[0]], cond[1].copy(),
-                            drift_functions=self.drift, mean=mtn["mean"], normalizer=copy.deepcopy(mtn["normalizer"]),
+                            drift_functions=self.drift, ext_drift=ext_fun(*cond[0]) if self.ext else None,
+                            mean=mtn["mean"], normalizer=copy.deepcopy(mtn["normalizer"]),
                             trend=mtn["trend"], unbiased=self.unbiased)
         if model_rhs is not None:
             # right-hand sides from another model content than the inverted matrix (in-place change without refresh)
             gs.field.base.Field.model.fset(kr, copy.deepcopy(model_rhs))
         return kr
 
-    def fresh_field(self, model, cond, mtn, seed, pos, mesh):
+    def fresh_field(self, model, cond, mtn, seed, pos, mesh, ext_kw):
         kr = self.krige(cond, model, mtn)
         c = self.gs.CondSRF(kr, seed=seed, mode_no=MODE_NO)
-        f = c(pos, mesh_type=mesh)
+        f = c(pos, mesh_type=mesh, **ext_kw)
         return f, dict(raw_krige=c.raw_krige, raw_field=c.raw_field, krige_var=c.krige.krige_var, krige_field=c.krige.field)
 
 
@@ -191,24 +219,35 @@ def mtn_repr(m):
 
 
 def gen_rows(rng, nops, allow_jit):
-    """random history as rows [code, haspos, base, jit, mesh, seed+1, nosave]; mostly valid, some calls before any position"""
+    """random history as rows [code, haspos, base, jit, mesh, seed+1, nosave, chunk, name set]; mostly valid, some calls
+    before any position"""
     rows = []
     cur = None        # (base, jit, mesh) last passed = content of the caller's array
-    i = 0
+    # the store-name sets used by this history: mostly the default, often two or three different ones
+    nsets = [[0], [0, 1], [0, 1, 2], [1, 2]][int(rng.choice(4, p=[0.45, 0.3, 0.15, 0.1]))]
+
+    def call_row(haspos, b=0, j=0, m=0):
+        row = [0, haspos, b, j, m, 0, 0, 0, int(nsets[int(rng.integers(len(nsets)))])]
+        if rng.random() < 0.5:
+            row[5] = 1 + int(rng.integers(1, 2000))
+        if rng.random() < 0.12:
+            row[6] = 1                                       # raw kriging field not stored
+        if rng.random() < 0.4:
+            row[7] = int(rng.integers(1, 4))                 # chunk_size: 1 / not dividing / > number of points
+        return row
     while len(rows) < nops:
         u = rng.random()
-        row = [0, 0, 0, 0, 0, 0, 0, 0]
         if cur is not None and u < 0.13:
             v = rng.random()
             if v < 0.4:
                 # the caller edits the passed array in place ... and (mostly) passes it again
                 b = (cur[0] + 4) % 8
-                rows.append([11, 1, b, 0, cur[2], 0, 0])
+                rows.append([11, 1, b, 0, cur[2]])
                 cur = (b, 0, cur[2])
                 if rng.random() < 0.7:
-                    rows.append([0, 1, b, 0, cur[2], 0, 0])
+                    rows.append(call_row(1, b, 0, cur[2]))
             elif v < 0.75:
-                row = [12, 0, 0, 0, 0, 0, 0]
+                row = [12, 0, 0, 0, 0]
                 if rng.random() < 0.75:
                     b, m = int(rng.integers(4)), int(rng.random() < 0.3)
                     if rng.random() < 0.3:
@@ -218,14 +257,13 @@ def gen_rows(rng, nops, allow_jit):
                 rows.append(row)
             else:
                 b = int(rng.integers(4))
-                rows.append([13, 1, b, 0, cur[2], 0, 0])
+                rows.append([13, 1, b, 0, cur[2]])
                 cur = (b, 0, cur[2])
             continue
         u = rng.random()
-        if u < 0.40 or (len(rows) == 0 and u < 0.8):
-            row[0] = 0
+        if u < 0.38 or (len(rows) == 0 and u < 0.8):
             if cur is None and rng.random() < 0.12:
-                pass                                         # call without any position: ValueError
+                rows.append(call_row(0))                     # call without any position: ValueError
             elif cur is None or rng.random() < 0.55:
                 if cur is not None and rng.random() < 0.45:
                     b, j, m = cur                            # identical position again
@@ -235,47 +273,54 @@ def gen_rows(rng, nops, allow_jit):
                     b, j, m = int(rng.integers(4)), 0, int(rng.random() < 0.3)
                     if cur is not None and rng.random() < 0.25:
                         b, m = cur[0], 1 - cur[2]            # same points, other mesh type
-                row[1:5] = [1, b, j, m]
+                rows.append(call_row(1, b, j, m))
                 cur = (b, j, m)
-            if rng.random() < 0.5:
-                row[5] = 1 + int(rng.integers(1, 2000))
-            if rng.random() < 0.12:
-                row[6] = 1                                   # store=[True, True, False]
-            if rng.random() < 0.4:
-                row[7] = int(rng.integers(1, 4))             # chunk_size: 1 / not dividing / > number of points
-        elif u < 0.47:
+            else:
+                rows.append(call_row(0))
+        elif u < 0.44:
             b, j, m = int(rng.integers(4)), 0, int(rng.random() < 0.3)
             if cur is not None and rng.random() < 0.3:
                 b, j, m = cur
                 if allow_jit:
                     j = int(rng.integers(0, 4))
-            row = [1, 1, b, j, m, 0, 0]
+            rows.append([1, 1, b, j, m])
             cur = (b, j, m)
-        elif u < 0.56:
-            row[0] = 2
+        elif u < 0.53:
+            rows.append([2])
+        elif u < 0.58:
+            rows.append([3])
         elif u < 0.62:
-            row[0] = 3
-        elif u < 0.66:
-            row[0] = 4
-        elif u < 0.74:
-            row[0] = 5
-            rows.append(row)
-            if rng.random() < 0.7:
-                rows.append([4, 0, 0, 0, 0, 0, 0])              # the documented refresh
-            continue
-        elif u < 0.81:
-            row[0] = 6
+            rows.append([4])
+        elif u < 0.72:
+            rows.append([5])                                 # in-place model edit ...
+            v = rng.random()
+            if v < 0.4:
+                rows.append([4])                             # ... followed by the documented refresh
+            elif v < 0.75:
+                rows.append([14])                            # ... or by re-assigning the same (edited) object
+        elif u < 0.78:
+            rows.append([6])
+        elif u < 0.83:
+            rows.append([7])
         elif u < 0.87:
-            row[0] = 7
-        elif u < 0.92:
-            row[0] = 8
+            rows.append([8])
+        elif u < 0.91:
+            rows.append([9])
+        elif u < 0.94:
+            rows.append([10, 0, 0, 0, 0, 1 + int(rng.integers(1, 2000))])
         elif u < 0.96:
-            row[0] = 9
+            rows.append([14])
         else:
-            row[0] = 10
-            row[5] = 1 + int(rng.integers(1, 2000))
-        rows.append(row)
+            rows.append([15])                                # the caller edits cond_pos / cond_val / ext_drift arrays in place
     return rows
+
+
+def store_kw(r):
+    """store option of a call: default names, a custom name set, and/or the raw kriging field not stored"""
+    if r[8] == 0 and not r[6]:
+        return {}
+    nm = NAMESETS[r[8]] if r[8] else [True, True, True]
+    return dict(store=[nm[0], nm[1], False if r[6] else nm[2]])
 
 
 class HistoryRunner:
@@ -295,7 +340,7 @@ class HistoryRunner:
         for r in rows:
             if r[0] == 5:
                 dirty = True
-            if r[0] in (2, 3, 4, 6):
+            if r[0] in (2, 3, 4, 6, 14):
                 dirty = False
             if r[0] in (0, 1, 12, 13) and r[1]:
                 haspos = True
@@ -307,13 +352,14 @@ class HistoryRunner:
                     ops=[OPN[r[0]] for r in rows], origin=origin)
         trace = None
         if self.drv is not None:
-            trace = self.drv.call("trace", True, True, True, ("n", w.seed0), np.array(rows, dtype=np.int64))
+            trace = self.drv.call("trace", True, True, True, True, True, ("n", w.seed0), np.array(rows, dtype=np.int64))
             if isinstance(trace, tuple) and trace and trace[0] == "error":
                 self.tie_broken.append("model trace failed: %r" % (trace,))
                 trace = None
         # ---- the implementation object
         live_model = copy.deepcopy(w.cur_model)
-        kr = gs.krige.Krige(live_model, [a.copy() for a in w.cur_cond[0]], w.cur_cond[1].copy(), drift_functions=w.drift,
+        uc = w.user_cond(w.cur_cond)
+        kr = gs.krige.Krige(live_model, uc["pos"], uc["val"], drift_functions=w.drift, ext_drift=uc.get("ext"),
                             mean=w.cur_mtn["mean"], normalizer=None, trend=None, unbiased=w.unbiased)
         csrf = gs.CondSRF(kr, seed=w.seed0, mode_no=MODE_NO)
         calls = [0]
@@ -330,6 +376,7 @@ class HistoryRunner:
         dirty = False
         jittered = False
         last_change = "none"
+        kv_pos = None           # the positions Krige's stored fields were computed on (csrf.pos = ... does not delete them)
         for i, r in enumerate(rows):
             code = r[0]
             kind, out, reuse = 0, None, None
@@ -344,21 +391,28 @@ class HistoryRunner:
                         if cur_pos is not None and cur_pos[0] == r[2] and cur_pos[2] == r[4] and cur_pos[1] != r[3]:
                             jittered = True
                         cur_pos = (r[2], r[3], r[4])
-                        kw = dict(store=[True, True, False]) if r[6] else {}
+                        kw = store_kw(r)
                         if r[7]:
                             n1 = len(w.bases[r[2] % 4][0])
                             kw["chunk_size"] = chunk_size_for(r[7], n1 ** w.dim if r[4] else n1)
+                        kw.update(w.target_ext(r[2], r[3], r[4]))
                         out = csrf(w.user_pos(r[2], r[3], r[4]), seed=sd, mesh_type=mesh_name(r[4]), **kw)
                     else:
-                        kw = dict(store=[True, True, False]) if r[6] else {}
-                        if r[7] and cur_pos is not None:
-                            n1 = len(w.bases[cur_pos[0] % 4][0])
-                            kw["chunk_size"] = chunk_size_for(r[7], n1 ** w.dim if cur_pos[2] else n1)
+                        kw = store_kw(r)
+                        if cur_pos is not None:
+                            if r[7]:
+                                n1 = len(w.bases[cur_pos[0] % 4][0])
+                                kw["chunk_size"] = chunk_size_for(r[7], n1 ** w.dim if cur_pos[2] else n1)
+                            kw.update(w.target_ext(*cur_pos))
                         out = csrf(seed=sd, **kw)
                     if r[6]:
                         last_change = "Call:store-raw_krige=False"
+                    elif r[8]:
+                        last_change = "Call:custom-store-names"
                     out = np.array(out, copy=True)
                     reuse = calls[0] == 0
+                    if not reuse:
+                        kv_pos = cur_pos
                 elif code == 1:
                     if cur_pos is not None and cur_pos[0] == r[2] and cur_pos[2] == r[4] and cur_pos[1] != r[3]:
                         jittered = True
@@ -366,18 +420,26 @@ class HistoryRunner:
                     csrf.set_pos(w.user_pos(r[2], r[3], r[4]), mesh_name(r[4]))
                 elif code == 2:
                     w.cur_cond = w.new_cond(False, w.cur_cond)
-                    csrf.krige.set_condition([a.copy() for a in w.cur_cond[0]], w.cur_cond[1].copy())
+                    w.ucond["val"] = np.array(w.cur_cond[1], dtype=np.double)      # a new array of the caller
+                    csrf.krige.set_condition(cond_val=w.ucond["val"])
                     dirty, last_change = False, OPN[code]
                 elif code == 3:
                     w.cur_cond = w.new_cond(True, w.cur_cond)
-                    csrf.krige.set_condition([a.copy() for a in w.cur_cond[0]], w.cur_cond[1].copy())
+                    uc = w.user_cond(w.cur_cond)
+                    csrf.krige.set_condition(uc["pos"], uc["val"], ext_drift=uc.get("ext"))
                     dirty, last_change = False, OPN[code]
                 elif code == 4:
                     csrf.krige.set_condition()
                     dirty = False
                 elif code == 5:
-                    if w.rng.random() < 0.6:
+                    ek = w.rng.random()
+                    if ek < 0.45 or (w.dim == 1 and ek < 0.75):
                         csrf.model.len_scale = csrf.model.len_scale * (1.7 if w.rng.random() < 0.5 else 0.6)
+                    elif ek < 0.75:
+                        if w.rng.random() < 0.5:
+                            csrf.model.anis = [min(0.95, max(0.2, a * (0.6 if a > 0.5 else 1.6))) for a in np.atleast_1d(csrf.model.anis)]
+                        else:
+                            csrf.model.angles = np.atleast_1d(csrf.model.angles) + 0.6
                     else:
                         csrf.model.var = csrf.model.var * 1.5
                     dirty, last_change = True, OPN[code]
@@ -411,9 +473,10 @@ class HistoryRunner:
                         new_pos = (r[2], r[3], r[4])
                         arg = w.user_pos(r[2], r[3], r[4])
                         cur_pos = new_pos
-                        csrf.krige(arg, mesh_type=mesh_name(r[4]))
+                        csrf.krige(arg, mesh_type=mesh_name(r[4]), **w.target_ext(r[2], r[3], r[4]))
                     else:
-                        csrf.krige()
+                        csrf.krige(**(w.target_ext(*cur_pos) if cur_pos is not None else {}))
+                    kv_pos = cur_pos
                 elif code == 13:
                     last_change = OPN[code]
                     m = cur_pos[2] if cur_pos is not None else 0
@@ -421,6 +484,15 @@ class HistoryRunner:
                         jittered = True
                     csrf.pos = w.user_pos(r[2], r[3], m)
                     cur_pos = (r[2], r[3], m)
+                elif code == 14:
+                    csrf.model = csrf.model         # the same (possibly edited) object
+                    dirty, last_change = False, OPN[code]
+                elif code == 15:
+                    # the caller edits arrays passed earlier as conditions; the conditions of the object must not follow
+                    which = [k for k in ("val", "pos", "ext") if k in w.ucond]
+                    which = which[int(w.rng.integers(len(which)))]
+                    w.ucond[which] += 0.7
+                    last_change = OPN[code] + ":" + which
             except ValueError as e:
                 if code in (0, 12) and cur_pos is None and "no position tuple" in str(e):
                     kind = 1
@@ -474,15 +546,24 @@ class HistoryRunner:
                                                "(max diff %.3g)" % (i, wseed, float(np.max(np.abs(expf - out))) if expf.shape == out.shape else np.nan))
                         case["tie_mismatch"] = dict(op=i, provenance=dict(k=k, v=v, gmodel=gmodel, seed=gseed, post=post))
                         # fall through to the property probe below: it decides whether this is a counter-example
+            # ---- after EVERY step: the kriging setup of the object equals that of a fresh Krige built from the present values
+            bad = self.check_setup(w, csrf, model_now, dirty, cur_pos if kv_pos == cur_pos else None)
+            if bad:
+                ctx.violation("probe: kriging setup after a history vs freshly built Krige",
+                              "after op %d (%s) %s differ(s) from a Krige freshly built from the present model / conditions / mean-trend-normalizer"
+                              % (i, OPN[code], ", ".join(bad)), dict(case, failed_op=i, differing=bad, model=repr(model_now), mtn=mtn_repr(w.cur_mtn)),
+                              key="history:setup-stale-after:" + (last_change if code not in (0, 1, 10) else OPN[code]))
+                return case
             # ---- property probe: a freshly built object returns the identical field
             if kind == 2 and not dirty:
                 b, j, m = cur_pos
-                fresh, fstored = w.fresh_field(model_now, w.cur_cond, w.cur_mtn, cur_seed, w.pos(b, j, m), mesh_name(m))
+                fresh, fstored = w.fresh_field(model_now, w.cur_cond, w.cur_mtn, cur_seed, w.pos(b, j, m), mesh_name(m), w.target_ext(b, j, m))
                 sc = max(1.0, float(np.max(np.abs(fresh))))
                 ctx.count(None)
-                stored = dict(raw_field=csrf.raw_field, krige_var=csrf.krige.krige_var, krige_field=csrf.krige.field)
-                if not r[6]:        # a call with store=[True, True, False] does not touch a previously stored raw_krige
-                    stored["raw_krige"] = csrf.raw_krige
+                nm = NAMESETS[r[8]]
+                stored = dict(raw_field=csrf[nm[1]], krige_var=csrf.krige.krige_var, krige_field=csrf.krige.field)
+                if not r[6]:        # a call that does not store the raw kriging field leaves a previously stored one alone
+                    stored["raw_krige"] = csrf[nm[2]]
                 bad_stored = [n for n in stored if np.shape(stored[n]) != np.shape(fstored[n]) or
                               not np.all(np.abs(np.asarray(stored[n]) - fstored[n]) <= 1e-12 * max(1.0, float(np.max(np.abs(fstored[n])))))]
                 if fresh.shape != out.shape or not np.all(np.abs(fresh - out) <= 1e-12 * sc) or bad_stored:
@@ -498,6 +579,69 @@ class HistoryRunner:
                                   dict(case, failed_op=i, max_abs_diff=diff, model=repr(model_now), mtn=mtn_repr(w.cur_mtn),
                                        got=[C.fhex(x) for x in out.ravel()[:40]], fresh=[C.fhex(x) for x in fresh.ravel()[:40]]), key=key)
                     return case
+        # ---- closing step (outside the model trace): exactness at the present conditioning points
+        return self.exactness(w, csrf, case, cur_seed)
+
+    def check_setup(self, w, csrf, model_now, dirty, cur_pos):
+        kr = csrf.krige
+        bad = []
+
+        def differ(a, b):
+            a, b = np.asarray(a, dtype=float), np.asarray(b, dtype=float)
+            return a.shape != b.shape or not np.all(np.abs(a - b) <= 1e-12 * max(1.0, float(np.max(np.abs(b))) if b.size else 1.0))
+        if differ(kr.cond_val, w.cur_cond[1]):
+            bad.append("cond_val")
+        if differ(kr.cond_pos, np.array(w.cur_cond[0])):
+            bad.append("cond_pos")
+        if w.ext and differ(kr.cond_ext_drift, np.atleast_2d(ext_fun(*w.cur_cond[0]))):
+            bad.append("cond_ext_drift")
+        if dirty or bad:
+            return bad
+        fk = w.krige(w.cur_cond, model_now, w.cur_mtn)
+        if differ(kr._krige_mat, fk._krige_mat):
+            bad.append("inverted kriging matrix")
+        if differ(kr._krige_pos, fk._krige_pos):
+            bad.append("isometrized conditioning positions")
+        if differ(kr._krige_cond, fk._krige_cond):
+            bad.append("prepared conditioning values")
+        if not bad and cur_pos is not None and "krige_var" in kr.field_names and "field" in kr.field_names:
+            b, j, m = cur_pos
+            f, v = fk(w.pos(b, j, m), mesh_type=mesh_name(m), store=False, **w.target_ext(b, j, m))
+            if differ(kr.krige_var, v):
+                bad.append("stored krige_var")
+            if differ(kr.field, f):
+                bad.append("stored kriging field")
+        return bad
+
+    def exactness(self, w, csrf, case, cur_seed):
+        ctx = self.ctx
+        eps = np.finfo(float).eps
+        cp, cv = np.array(w.cur_cond[0]), np.asarray(w.cur_cond[1])
+        ekw = dict(ext_drift=ext_fun(*cp)) if w.ext else {}
+        try:
+            condK = kmat_cond(csrf.krige)
+            out = np.array(csrf(cp.copy(), **ekw), copy=True)
+            kvar, raw = np.asarray(csrf.krige.krige_var), np.asarray(csrf.raw_field)
+            fresh, _ = w.fresh_field(copy.deepcopy(csrf.model), w.cur_cond, w.cur_mtn, cur_seed, cp.copy(), "unstructured", ekw)
+        except Exception as e:  # noqa
+            ctx.violation("probe: history", "exception in the closing call at the conditioning points: %r" % (e,), case, key="history:exception:closing")
+            return case
+        ctx.count(None)
+        if fresh.shape != out.shape or not np.all(np.abs(fresh - out) <= 1e-12 * max(1.0, float(np.max(np.abs(fresh))))):
+            ctx.violation("probe: call after a history vs freshly built object", "closing call at the conditioning points differs from a fresh object by %.3g"
+                          % (float(np.max(np.abs(fresh - out))) if fresh.shape == out.shape else np.nan), case, key="history:stale-at-closing-call")
+            return case
+        if condK < 1e8:
+            var = float(csrf.model.var)
+            scale = 1.0 + float(np.max(np.abs(cv)))
+            # deviation allowed in the normalized space (solver accuracy + sqrt of the remaining variance), mapped through the
+            # denormalisation with a generous factor (its slope is bounded by (1+|y|)^2 for the normalizers used)
+            tol = (1e3 * eps * condK * scale + np.sqrt(np.maximum(kvar, 0) / var) * np.abs(raw) * (1 + 1e-9)) * 20 * (1 + np.abs(cv)) ** 2 + 1e-9 * scale
+            if not np.all(np.abs(out - cv) <= tol):
+                i = int(np.argmax(np.abs(out - cv) - tol))
+                ctx.violation("probe: honour the data after a history", "after the history the field at conditioning point %d is %r, datum %r (allowed deviation %.3g)"
+                              % (i, float(out[i]), float(cv[i]), float(tol[i])), dict(case, kriging_matrix_cond=condK), key="history:data-not-honoured")
+                return case
         return None
 
     def expected(self, w, k, v, gmodel, gseed, post, cur_pos):
@@ -507,7 +651,8 @@ class HistoryRunner:
         def raw_krige(d):
             mm, mr = w.model[d["matmodel"]], w.model[d["model"]]
             kr = w.krige(w.cond[d["cond"]], mm, w.mtn[d["mtn"]], None if d["matmodel"] == d["model"] else mr)
-            return kr(w.pos(d["pos"][0], d["pos"][1], d["mesh"]), mesh_type=mesh_name(d["mesh"]), post_process=False, store=False)
+            return kr(w.pos(d["pos"][0], d["pos"][1], d["mesh"]), mesh_type=mesh_name(d["mesh"]), post_process=False, store=False,
+                      **w.target_ext(d["pos"][0], d["pos"][1], d["mesh"]))
         rk, kv = raw_krige(k)
         if v != k:
             _, kv = raw_krige(v)
@@ -824,7 +969,7 @@ def run(ctx, only_history=None):
     rng = C.Rng(ctx.seed, "C07")
     thorough = ctx.tier == "thorough"
     merge_local_known_findings(ctx)
-    ctx.rule = ("operation histories of <= 10 operations (+ closing refresh/call) over {call(pos?, seed?, store raw_krige?, chunk_size none/1/not dividing/> n), set_pos, "
+    ctx.rule = ("operation histories of <= 10 operations (+ closing refresh/call + call at the conditioning points) over {call(pos?, seed?, 1-3 store-name sets, store raw_krige?, chunk_size none/1/not dividing/> n), set_pos, re-assignment of the same edited model object, in-place edits of cond_pos/cond_val/ext_drift arrays, "
                 "set_condition(new values / new positions / refresh), in-place model change, model / mean / trend / normalizer re-assignment, "
                 "set_generator, in-place edit of the caller's position array, direct krige(pos?) call, csrf.pos = ...}, positions passed as "
                 "float64 ndarrays (aliasing-prone), dim 1-3, simple/ordinary/universal kriging, scalar and callable trend, YeoJohnson/Modulus "
@@ -844,7 +989,7 @@ def run(ctx, only_history=None):
         "far-field limit as a limit statement: proved are the exact end point (estimate 0, variance = sill) and a quantitative bound for models "
         "without nugget; that simple-kriging weights vanish far from the data is probed only",
         "np.allclose window of Field._pos_equal: C07_cache_coherent assumes positions are identical or not allclose (C07_pos_window_refuted; known finding)",
-        "custom field names, krige_store options, assigning csrf.mesh_type (raises ValueError on the next call unless the shapes happen to "
+        "krige_store options, assigning csrf.mesh_type (raises ValueError on the next call unless the shapes happen to "
         "agree), in-place edits of arrays obtained from the getters (csrf.pos[...] = ...), fit_normalizer/fit_variogram and seed=None are "
         "outside the modelled operation alphabet",
         "floating-point rounding (theorems over R; the formula model is executed at doubles bit-for-bit against the implementation)",
@@ -876,10 +1021,10 @@ def run(ctx, only_history=None):
         for h in range(n_hist):
             wseed = int(rng.integers(1, 2 ** 31))
             allow_jit = rng.random() < 0.15
-            rows = gen_rows(rng, int(rng.integers(2, 11)), allow_jit)
+            rows = [(r + [0] * NCOL)[:NCOL] for r in gen_rows(rng, int(rng.integers(2, 11)), allow_jit)]
             ncall = sum(1 for r in rows if r[0] == 0)
             nchg = sum(1 for r in rows if r[0] >= 2)
-            key = ("hist",) + tuple(r[0] * 4 + r[1] + 2 * (r[5] > 0) for r in rows)
+            key = ("hist",) + tuple(r[0] * 16 + r[1] + 2 * (r[5] > 0) + 4 * r[8] for r in rows)
             ctx.count(key if (ncall >= 1 and nchg >= 1) else None,
                       hist=dict(stage="history", n_ops=len(rows), sub_tolerance_positions=bool(allow_jit)))
             for r in rows:
